@@ -133,6 +133,11 @@ void Sim::init_timer_only() {
   COTmrInit(&node->Tmr, node, tmem, ntmr, freq);
   api_end("COTmrInit");
 }
+void Sim::init_bare() {
+  free(node);
+  node = (CO_NODE *)malloc(sizeof(CO_NODE)); memset(node, poison, sizeof(CO_NODE));
+  node->If.Drv = &Drv; node->If.Node = node; node->Error = CO_ERR_NONE; node->NodeId = nodeid;
+}
 void Sim::start() { api_begin(); CONodeStart(node); api_end("CONodeStart"); }
 
 void Sim::api_begin() { edge_reset(); tx_in_call = 0; }
